@@ -1,6 +1,6 @@
 (** Classification of C18 histories (harness/props/c18.go). *)
 From Coq Require Import List Bool Arith Strings.Byte.
-From YV Require Import Base.Verdict Val.Model Tree.Schema Tree.Editor Tree.Merge Tree.Delete.
+From YV Require Import Base.Verdict Val.Model Tree.Schema Tree.Editor Tree.Merge Tree.Delete Tree.DeleteDup.
 Import ListNotations.
 
 (** what was observed after one operation *)
@@ -51,13 +51,24 @@ Definition res_obs_eqb (ordered : bool) (m : res content) (o : obs) : bool :=
   | _, _ => false
   end.
 
+(** struct-backed targets (kinds 2, 3) are exported raw and compared modulo zero-valued non-key
+    leaves (Tree/DeleteDup.v [znorm]: a Go struct field cannot be unset); key leaves are kept, so the
+    uniqueness oracle runs on the keys as stored *)
+Definition proj (kind : nat) (kids : list snode) (r : res content) : res content :=
+  if Nat.leb 2 kind then znorm_res kids r else r.
+Definition proj_obs (kind : nat) (kids : list snode) (o : obs) : obs :=
+  match o with
+  | ObsOk c a b => if Nat.leb 2 kind then ObsOk (znorm_content kids c) a b else o
+  | _ => o
+  end.
+
 Definition classify (c : case) : verdict :=
   match c with
   | CStep kind kids before o ob =>
       let ordered := Nat.eqb kind 0 in
-      let corr := res_obs_eqb ordered (apply_op kids before o) ob in
+      let corr := res_obs_eqb ordered (proj kind kids (apply_op kids before o)) (proj_obs kind kids ob) in
       let spec :=
-        res_obs_eqb ordered (spec_op kids before o) ob &&
+        res_obs_eqb ordered (proj kind kids (spec_op2 kids before o)) (proj_obs kind kids ob) &&
         match ob with
         | ObsOk c' still allfound =>
             negb still && allfound && (negb (keys_unique_content kids before) || keys_unique_content kids c')
